@@ -17,7 +17,7 @@ TIES3 = {"kinds": ["lo", "box"], "xs": [0, 1, 2], "g": "nz"}   # n = 3 slice ric
 
 def lattices(ctx):
     if ctx.quick:
-        return [(1, [0, 1, 2, 3], None), (2, [0, 1, 3], None), (3, [1], TIES3)]
+        return [(1, [0, 1, 2, 3], None), (2, [0, 1, 3], None), (3, [1, 3], TIES3)]
     return [(1, [0, 1, 2, 3], None), (2, [0, 1, 2, 3, 4], None), (3, [0, 1, 2, 3], TIES3),
             (3, [1], {"kinds": ["free", "lo", "hi", "box", "fix"], "xs": [0, 1, 3], "g": "full"})]
 
